@@ -299,8 +299,10 @@ VerifyResult(hs, dk, R, P, single) ==       \* single = NoPath or the absolute p
       bad     == {p \in sel \ new : orig(p).c # dk[p]}
       hashed  == sel \ new
       notfound == {q \in Expected(hs, H) \ vis : ~Ign(R, q, eff)}
-  IN [exit |-> IF Len(GensOf(hs, R)) = 0 THEN 30
-               ELSE IF bad # {} THEN 11
+  IN IF Len(GensOf(hs, R)) = 0                      \* refused before anything is looked at
+     THEN [exit |-> 30, missing |-> {}, mismatch |-> {}, new |-> {}]
+     ELSE
+     [exit |-> IF bad # {} THEN 11
                ELSE IF new # {} THEN 21
                ELSE IF single # NoPath /\ hashed = {} THEN 20
                ELSE IF notfound # {} THEN 10 ELSE 0,
@@ -410,6 +412,13 @@ Unchanged(dk, sealed, R, ign) ==
      LET sd == sealed[S]
      IN /\ {p \in DOMAIN sd : Below(R, p) /\ p \notin ign} = NonIgn(dk, R, ign)
         /\ \A p \in NonIgn(dk, R, ign) : sd[p] = dk[p]
+\* ghost: sealed[S] = the tree as it was when a folder-mode create at S last exited 0, dropped as
+\* soon as any later run records something in a history above, at or below S
+SealedNext(sealed, dk, W, op, exit) ==
+  LET keep == {S \in DOMAIN sealed : \A h \in W : ~BelowEq(S, h) /\ ~BelowEq(h, S)}
+  IN  IF op.op = "create" /\ exit = 0
+      THEN [S \in keep \cup {op.R} |-> IF S = op.R THEN dk ELSE sealed[S]]
+      ELSE [S \in keep |-> sealed[S]]
 P_C03_NoFalseAlarm(pre, dk, sealed, op, ob, ign) ==
   (op.op \in {"create", "verify", "diff"} /\ Len(GensOf(pre, op.R)) > 0 /\ Unchanged(dk, sealed, op.R, ign))
     => ob.exit = 0
@@ -426,7 +435,8 @@ P_C03_Altered(pre, dk, op, ob, ign) ==
                      LET o == FirstContent(pre, dk, op.R, p) IN o.f # "none" /\ o.c # dk[p]}
        IN alt # {} => (ob.exit = 11 /\ alt \subseteq ob.mismatch)
 P_C03_Removed(pre, dk, op, ob, ign) ==
-  (op.op \in {"create", "verify", "diff"} /\ Len(GensOf(pre, op.R)) > 0 /\ ~HasRenames(pre, dk, op.R))
+  (op.op \in {"create", "verify", "diff"} /\ Len(GensOf(pre, op.R)) > 0 /\ ~HasRenames(pre, dk, op.R)
+     /\ (op.op = "create" => ~op.dr))
     => LET gone == {p \in EverRecorded(pre, dk, op.R) : p \notin DOMAIN dk /\ p \notin ign /\ ~Ign(op.R, p, ob.eff)}
        IN gone # {} => (ob.exit # 0 /\ (ob.exit \in {10, 11, 21}) /\ gone \subseteq ob.missing
                         /\ (ob.mismatch = {} /\ ob.new = {} => ob.exit = 10))
@@ -448,8 +458,9 @@ FirstDig(gens, rp, f) == FindFirst(gens, rp, f)
 P_C04_Judged(pre, post, dk, op, ob) ==
   (op.op \in {"create", "createsf"} /\ ob.exit \in {0, 10, 11})
     => \A h \in Wrote(pre, post) : \A g \in SeqSet(NewGens(pre, post, h)) : \A rp \in DOMAIN g.files :
+         \* judged by path: a file recorded under a new name (rename detection) starts as original
          LET old    == GensOf(pre, h)
-             lp     == IF g.files[rp].prev # NoPath THEN g.files[rp].prev ELSE rp
+             lp     == rp
              known  == \E i \in DOMAIN old : RecOf(old[i], lp) # <<>>
              ents   == g.files[rp].ents
          IN IF ~known
